@@ -15,7 +15,7 @@
 //!   * `into_recursion_input` of the output is accepted by the next layer's verifier;
 //!   * the same call with and without cache has the same verdict.
 //!
-//! ## Why states are de-duplicated by (shape ids, cache provenance, params) only
+//! ## Why states are de-duplicated by (shape ids, cache provenance/content, params) only
 //! The API functions are pure functions of their explicit arguments: config, backend and
 //! params are immutable values, there is no global or thread-local state in
 //! `recursion.rs`/`backend/fri.rs`, and the non-ZK prover draws no randomness. The only data
@@ -29,8 +29,17 @@
 //!     not assumed: whenever a second proof arrives for an existing shape id, its `L` circuit
 //!     digest has been compared (it is part of the id), and base proofs come in two value
 //!     instances that are required to collapse to one id.
-//!   * A cache object is a deterministic function of (circuit, params) it was built for, so
-//!     its provenance (which call filled it) identifies its content.
+//!   * The next-layer cache is created by `build_next_layer_prep`, a pure function of
+//!     (circuit, config, params), and is only ever borrowed immutably by the API: its
+//!     provenance (proof shape it was prepared for, params) identifies its content.
+//!   * The aggregation slot is `&mut`: its content may depend on every earlier call that was
+//!     handed the slot. Its state id is therefore the *observed* content after each call
+//!     (stored fingerprint, preprocessed columns, preprocessed commitment, metadata the
+//!     cached prover stamps on proofs); two histories are merged only if that content is
+//!     equal. A slot state is re-created by replaying, in order, all slot-changing calls of
+//!     the shortest history that produced it, and the replayed content is compared with the
+//!     registered one (machinery error otherwise) — this also checks that the content does
+//!     not depend on the values inside the proofs (replays use the other value instance).
 //! Hence two histories reaching the same key enable the same calls with the same outcomes, and
 //! a call needs to be executed once per distinct argument tuple (inputs' shapes, cache
 //! provenance, params). `transitions` counts those executed calls — every one runs the
@@ -67,25 +76,37 @@ struct NlProv {
     x: ShapeId,
     p: usize,
 }
+/// A state of the aggregation slot: index into `World::slots`. A slot state is identified by
+/// the observable content of the slot (stored fingerprint, preprocessed columns, preprocessed
+/// commitment, and the metadata the cached prover stamps on proofs) and is re-created by
+/// replaying the slot-changing calls of the first (shortest) history that reached it.
+type AgId = usize;
+
 #[derive(Clone, Copy, PartialEq, Eq, Hash, PartialOrd, Ord, Debug)]
-struct AgProv {
+struct SlotCall {
     x: ShapeId,
     y: ShapeId,
     p: usize,
+    cross: bool,
+}
+
+struct SlotInfo {
+    key: String,
+    seq: Vec<SlotCall>,
 }
 
 /// One call of the API, up to the values inside the proofs ("transition class").
 #[derive(Clone, PartialEq, Eq, Hash, PartialOrd, Ord, Debug)]
 enum Call {
     L { x: ShapeId, cache: Option<NlProv>, p: usize },
-    A { x: ShapeId, y: ShapeId, slot: Option<Option<AgProv>>, p: usize, cross: bool },
+    A { x: ShapeId, y: ShapeId, slot: Option<Option<AgId>>, p: usize, cross: bool },
 }
 
 #[derive(Clone, PartialEq, Eq, Hash, PartialOrd, Ord, Debug)]
 struct State {
     proofs: BTreeSet<ShapeId>,
     nl: Option<NlProv>,
-    ag: Option<AgProv>,
+    ag: Option<AgId>,
     p: usize,
 }
 
@@ -162,9 +183,17 @@ struct StateInfo {
     refs: BTreeMap<ShapeId, Ref>,
 }
 
+/// What a call did to the aggregation slot it was handed.
+#[derive(Clone, Copy, Debug)]
+enum SlotEffect {
+    Unchanged,
+    Now(Option<AgId>),
+}
+
 struct Summary {
     verdict: Verdict,
     facts: CacheFacts,
+    slot_effect: SlotEffect,
     out_shape: Option<ShapeId>,
     secs: f64,
     hist: Vec<Act>,
@@ -175,6 +204,9 @@ struct World {
     env: Env,
     shapes: Vec<ShapeInfo>,
     by_key: HashMap<String, ShapeId>,
+    slots: Vec<SlotInfo>,
+    slot_by_key: HashMap<String, AgId>,
+    slot_merges: u64,
     base_names: Vec<String>,
     memo: HashMap<Call, Summary>,
     order: Vec<Call>,
@@ -196,6 +228,27 @@ impl World {
         self.shapes.push(ShapeInfo { key: key.clone(), label, insts: vec![Arc::new(obj)], l_counters: cnt.to_string(), level });
         self.by_key.insert(key, id);
         id
+    }
+    fn register_slot(&mut self, key: String, seq: Vec<SlotCall>) -> AgId {
+        if let Some(&id) = self.slot_by_key.get(&key) {
+            self.slot_merges += 1;
+            if seq.len() < self.slots[id].seq.len() {
+                self.slots[id].seq = seq;
+            }
+            return id;
+        }
+        let id = self.slots.len();
+        self.slots.push(SlotInfo { key: key.clone(), seq });
+        self.slot_by_key.insert(key, id);
+        id
+    }
+    fn slot_label(&self, a: AgId) -> String {
+        self.slots[a]
+            .seq
+            .iter()
+            .map(|c| format!("A{}[P{}]({}, {})", if c.cross { "x" } else { "" }, c.p, self.label(c.x), self.label(c.y)))
+            .collect::<Vec<_>>()
+            .join(" then ")
     }
     /// instance used as the subject of a judged call / as the material a cache is prepared on
     fn subject(&self, x: ShapeId) -> Shared {
@@ -225,7 +278,7 @@ impl World {
                 match slot {
                     None => "none".to_string(),
                     Some(None) => "empty slot".to_string(),
-                    Some(Some(a)) => format!("slot filled by A[P{}]({}, {})", a.p, self.label(a.x), self.label(a.y)),
+                    Some(Some(a)) => format!("slot after {}", self.slot_label(*a)),
                 }
             ),
         }
@@ -238,34 +291,70 @@ impl World {
     }
 }
 
+/// Result of one executed call plus its effect on the aggregation slot.
+struct Executed {
+    o: Outcome,
+    slot_changed: bool,
+    slot_key_after: Option<String>,
+}
+
 /// Executes one call on a worker thread.
-fn run_call(w: &World, c: &Call) -> Result<Outcome, String> {
+fn run_call(w: &World, c: &Call) -> Result<Executed, String> {
     match c {
         Call::L { x, cache, p } => {
+            // the cache is prepared on the first value instance, the call runs on the last one
             let xs = w.subject(*x);
             let mat = cache.map(|n| (w.material(n.x), n.p));
-            exec_l(&w.env, &xs, mat.as_ref().map(|(o, q)| (&**o, *q)), *p)
+            let o = exec_l(&w.env, &xs, mat.as_ref().map(|(o, q)| (&**o, *q)), *p)?;
+            Ok(Executed { o, slot_changed: false, slot_key_after: None })
         }
         Call::A { x, y, slot, p, cross } => {
-            // left operand: first instance, right operand: last instance — for a base shape
-            // aggregated with itself these are two distinct proofs (as the example's leaves)
+            // judged call: last value instances; for a shape aggregated with itself the two
+            // operands are two distinct proofs where two exist (as the example's leaves).
+            // Replayed slot history: first value instances.
             let xs = if x == y { w.material(*x) } else { w.subject(*x) };
             let ys = w.subject(*y);
-            let fill_objs = match slot {
-                Some(Some(a)) => Some((w.material(a.x), w.subject(a.y), a.p)),
+            let seq: Vec<SlotCall> = match slot {
+                Some(Some(a)) => w.slots[*a].seq.clone(),
+                _ => vec![],
+            };
+            let objs: Vec<(Shared, Shared)> = seq
+                .iter()
+                .map(|c| (w.material(c.x), if c.x == c.y { w.subject(c.y) } else { w.material(c.y) }))
+                .collect();
+            let steps: Vec<SlotStep<'_>> = seq
+                .iter()
+                .zip(objs.iter())
+                .map(|(c, (l, r))| SlotStep { left: l, right: r, p: c.p, cross: c.cross })
+                .collect();
+            let expected = match slot {
+                Some(Some(a)) => Some(w.slots[*a].key.as_str()),
                 _ => None,
             };
-            let slot_arg = match slot {
-                None => None,
-                Some(None) => Some(None),
-                Some(Some(_)) => {
-                    let (l, r, q) = fill_objs.as_ref().unwrap();
-                    Some(Some(SlotFill { left: l, right: r, p: *q }))
-                }
-            };
-            exec_a(&w.env, &xs, &ys, slot_arg, *p, *cross)
+            let r = exec_a(&w.env, &xs, &ys, slot.map(|_| (steps.as_slice(), expected)), *p, *cross)?;
+            Ok(Executed { o: r.outcome, slot_changed: r.slot_changed, slot_key_after: r.slot_key_after })
         }
     }
+}
+
+/// Registers the output proof and the slot state an executed call left behind.
+fn absorb(w: &mut World, c: &Call, e: Executed, hist: Vec<Act>, level: usize) -> Summary {
+    let out_shape = e.o.output.map(|(obj, tag, cnt, dig)| {
+        let l = w.out_label(c);
+        w.register(obj, tag, &fp_str(&cnt), dig, l, level + 1)
+    });
+    let slot_effect = match c {
+        Call::A { x, y, slot: Some(before), p, cross } if e.slot_changed => match e.slot_key_after {
+            None => SlotEffect::Now(None),
+            Some(key) => {
+                let mut seq = before.map(|a| w.slots[a].seq.clone()).unwrap_or_default();
+                seq.push(SlotCall { x: *x, y: *y, p: *p, cross: *cross });
+                SlotEffect::Now(Some(w.register_slot(key, seq)))
+            }
+        },
+        _ => SlotEffect::Unchanged,
+    };
+    Summary { verdict: e.o.verdict, facts: e.o.facts, slot_effect, out_shape, secs: e.o.secs, hist, level }
 }
 
 /// Oracle clauses on one executed call. Returns (key, description) of each broken clause.
@@ -284,12 +373,17 @@ fn clauses(w: &World, c: &Call, s: &Summary) -> Vec<(String, String)> {
     } else {
         match c {
             Call::L { .. } => "foreign_cache".to_string(),
+            // `reused` (the slot still holds the same prover data and the call returned) is
+            // only meaningful for calls that returned Ok; for a panic/Err the stored
+            // fingerprint tells which branch the implementation took
             Call::A { .. } => format!(
                 "foreign_cache:{}",
-                if f.reused {
-                    if f.fp_equal { "fingerprint_collision" } else { "reused_despite_fingerprint_mismatch" }
-                } else {
-                    "recomputed"
+                match (&s.verdict, f.reused, f.fp_equal) {
+                    (Verdict::Panic(_) | Verdict::Err(_), _, true) => "fingerprint_collision",
+                    (Verdict::Panic(_) | Verdict::Err(_), _, false) => "fingerprint_differs",
+                    (_, true, true) => "fingerprint_collision",
+                    (_, true, false) => "reused_despite_fingerprint_mismatch",
+                    (_, false, _) => "recomputed",
                 }
             ),
         }
@@ -401,15 +495,10 @@ fn successor(s: &State, info: &StateInfo, a: &Act, call: Option<&Call>, sum: Opt
             }
             match (a, call) {
                 (Act::L { cache: "fresh", .. }, Call::L { cache: Some(n), .. }) => ns.nl = Some(*n),
-                (_, Call::A { x, y, slot: Some(_), p, .. }) => {
-                    let f = &sum.facts;
-                    ns.ag = if !f.slot_filled_after {
-                        None
-                    } else if f.reused || !matches!(sum.verdict, Verdict::Good | Verdict::NonVerifying(_) | Verdict::NotChainable(_)) {
-                        s.ag
-                    } else {
-                        Some(AgProv { x: *x, y: *y, p: *p })
-                    };
+                (_, Call::A { slot: Some(_), .. }) => {
+                    if let SlotEffect::Now(a) = sum.slot_effect {
+                        ns.ag = a;
+                    }
                 }
                 _ => {}
             }
@@ -437,10 +526,10 @@ fn main() {
         vec![sc(&["U0", "U1", "B0"], 3, 2, false)]
     } else {
         vec![
-            // everything the quick tier does, one step deeper
-            sc(&["U0", "U1", "B0"], 3, 3, false),
-            // wider alphabet (second batch shape, third params value, `_cross` entry point)
+            // wider alphabet (second batch shape, `_cross` entry point), same depth as quick
             sc(&["U0", "U1", "B0", "B1"], 3, 2, true),
+            // everything the quick tier does, one step deeper (takes what is left of the budget)
+            sc(&["U0", "U1", "B0"], 3, 3, false),
         ]
     };
     if ctx.opt("depth").is_some() || ctx.opt("bases").is_some() || ctx.opt("params").is_some() || ctx.opt("cross").is_some() {
@@ -482,6 +571,9 @@ fn main() {
         env,
         shapes: vec![],
         by_key: HashMap::new(),
+        slots: vec![],
+        slot_by_key: HashMap::new(),
+        slot_merges: 0,
         base_names: all_bases.clone(),
         memo: HashMap::new(),
         order: vec![],
@@ -539,15 +631,11 @@ fn main() {
             }
             let mut sum = None;
             if let Some(c) = &call {
-                let o = run_call(&w, c).unwrap_or_else(|e| machinery_error(&e));
-                println!("step {i}: {}  =>  {} {}", w.call_label(c), o.verdict.tag(), o.verdict.detail());
+                let e = run_call(&w, c).unwrap_or_else(|e| machinery_error(&e));
+                println!("step {i}: {}  =>  {} {}", w.call_label(c), e.o.verdict.tag(), e.o.verdict.detail());
                 let mut hist = info.hist.clone();
                 hist.push(a.clone());
-                let out_shape = o.output.map(|(obj, tag, cnt, dig)| {
-                    let l = w.out_label(c);
-                    w.register(obj, tag, &fp_str(&cnt), dig, l, i + 1)
-                });
-                let sm = Summary { verdict: o.verdict, facts: o.facts, out_shape, secs: o.secs, hist, level: i };
+                let sm = absorb(&mut w, c, e, hist, i);
                 for (k, what) in clauses(&w, c, &sm) {
                     report.violation(k, what, rp.clone());
                 }
@@ -648,13 +736,17 @@ fn main() {
                 Call::L { x, cache, .. } => 2 * w.shapes[*x].level + cache.map(|n| w.shapes[n.x].level).unwrap_or(0),
                 Call::A { x, y, slot, .. } => {
                     2 * (w.shapes[*x].level + w.shapes[*y].level)
-                        + slot.flatten().map(|a| 2 * (w.shapes[a.x].level + w.shapes[a.y].level) + 1).unwrap_or(0)
+                        + slot
+                            .flatten()
+                            .map(|a| w.slots[a].seq.iter().map(|c| 2 * (w.shapes[c.x].level + w.shapes[c.y].level) + 1).sum::<usize>())
+                            .unwrap_or(0)
                 }
             }
         };
+        eprintln!("C17 scenario {sci} level {level}: {} states, {} edges, {} calls to execute", frontier.len(), level_edges.len(), new_calls.len());
         let mut order: Vec<usize> = (0..new_calls.len()).collect();
         order.sort_by_key(|i| weight(&new_calls[*i].0));
-        let results: Vec<(usize, Option<Result<Outcome, String>>)> = order
+        let results: Vec<(usize, Option<Result<Executed, String>>)> = order
             .par_iter()
             .with_max_len(1)
             .map(|&i| {
@@ -664,7 +756,7 @@ fn main() {
                 (i, Some(run_call(&w, &new_calls[i].0)))
             })
             .collect();
-        let mut by_idx: Vec<Option<Result<Outcome, String>>> = (0..new_calls.len()).map(|_| None).collect();
+        let mut by_idx: Vec<Option<Result<Executed, String>>> = (0..new_calls.len()).map(|_| None).collect();
         for (i, r) in results {
             by_idx[i] = r;
         }
@@ -677,14 +769,10 @@ fn main() {
                 exhaustive = false;
                 continue;
             };
-            let o = r.unwrap_or_else(|e| machinery_error(&format!("{}: {e}", w.call_label(call))));
+            let e = r.unwrap_or_else(|e| machinery_error(&format!("{}: {e}", w.call_label(call))));
             executed += 1;
-            histo.add(o.verdict.tag());
-            let out_shape = o.output.map(|(obj, tag, cnt, dig)| {
-                let l = w.out_label(call);
-                w.register(obj, tag, &fp_str(&cnt), dig, l, level + 1)
-            });
-            let sum = Summary { verdict: o.verdict, facts: o.facts, out_shape, secs: o.secs, hist: hist.clone(), level };
+            histo.add(e.o.verdict.tag());
+            let sum = absorb(&mut w, call, e, hist.clone(), level);
             let f = &sum.facts;
             let cls = format!(
                 "{}:{}",
@@ -821,6 +909,9 @@ fn main() {
         "scenarios": per_scenario,
         "proof_shapes": w.shapes.len(),
         "proofs_merged_into_existing_shape": w.shape_merges,
+        "aggregation_slot_states": w.slots.len(),
+        "slot_states_merged_by_content": w.slot_merges,
+        "slot_states_needing_multi_call_replay": w.slots.iter().filter(|s| s.seq.len() > 1).count(),
         "shape_samples": w.shapes.iter().take(12).map(|s| json!({"label": s.label, "level": s.level, "L_circuit_counters": s.l_counters, "key_digest": format!("{:016x}", fnv64(s.key.as_bytes()))})).collect::<Vec<_>>(),
         "verdicts": histo.to_json(),
         "verdicts_by_call_class": class_histo.to_json(),
@@ -831,8 +922,9 @@ fn main() {
     });
     let assumptions = vec![
         "KoalaBear, D=4, Poseidon2 width 16, non-ZK TwoAdicFriPcs with test-grade FRI parameters (blowup 2, 2 queries, 1+1 PoW bits, final poly len 1): the cache logic under test does not depend on them".to_string(),
-        "states are identified by (shape ids, cache provenance, params): the API is a pure function of its explicit arguments; shape id = proof metadata + digest of the complete next-layer verification circuit".to_string(),
-        "a cache object is re-created on the worker thread by replaying the real call that produced it (Rc is not Send); the prover is deterministic in this configuration".to_string(),
+        "states are identified by (shape ids, next-layer cache provenance, observed aggregation-slot content, params): the API is a pure function of its explicit arguments; shape id = proof metadata + digest of the complete next-layer verification circuit".to_string(),
+        "a cache object is re-created on the worker thread by replaying the real calls that produced it (Rc is not Send); the prover is deterministic in this configuration (replayed slot content is compared with the registered content)".to_string(),
+        "the cached BatchStarkProver inside a cache object is opaque; the table packing / ALU variant it stamps on the proof of the filling call stands in for its configuration in the slot content key".to_string(),
         "'accepted as input by a further L' = the next verification circuit builds and its in-circuit verifier run succeeds on into_recursion_input(output); proving that circuit is the L transition of the next level (not executed for outputs of the last level)".to_string(),
         "classification of a cache as same/foreign uses a harness replica of the private aggregation circuit builder (public backend trait calls); its counters are validated against the fingerprint the implementation stores on every fill".to_string(),
     ];
